@@ -4,55 +4,6 @@ From BiomV Require Import Base.Tree Base.ListUtil Base.Matrix Model.Table Model.
   Proofs.OrientProofs.
 Import ListNotations.
 
-(* ---------------------------------------------------------------- small list facts *)
-Lemma NoDup_app_intro {A} (a b : list A) :
-  NoDup a -> NoDup b -> (forall x, In x a -> ~ In x b) -> NoDup (a ++ b).
-Proof.
-  induction a as [|x a IH]; simpl; intros Ha Hb Hd; [exact Hb|].
-  inversion Ha as [|? ? Hx Ha']; subst. constructor.
-  - rewrite in_app_iff. intros [H|H]; [contradiction|]. apply (Hd x); [left; reflexivity|exact H].
-  - apply IH; [exact Ha'|exact Hb|]. intros y Hy. apply Hd. right. exact Hy.
-Qed.
-
-Lemma NoDup_app_l {A} (a b : list A) : NoDup (a ++ b) -> NoDup a.
-Proof.
-  induction a as [|x a IH]; simpl; intros H; [constructor|].
-  inversion H as [|? ? Hx H']; subst. constructor; [|apply IH; exact H'].
-  intros Hi. apply Hx. apply in_or_app. left. exact Hi.
-Qed.
-
-Lemma NoDup_app_disj {A} (a b : list A) x : NoDup (a ++ b) -> In x a -> ~ In x b.
-Proof.
-  induction a as [|y a IH]; simpl; intros H Ha Hb; [contradiction|].
-  inversion H as [|? ? Hy H']; subst. destruct Ha as [Ha|Ha].
-  - subst. apply Hy. apply in_or_app. right. exact Hb.
-  - exact (IH H' Ha Hb).
-Qed.
-
-Lemma existsb_zmem_false l seen :
-  existsb (fun x => zmem x seen) l = false <-> forall x, In x l -> ~ In x seen.
-Proof.
-  split.
-  - intros H x Hx Hs. assert (E : existsb (fun x => zmem x seen) l = true).
-    { apply existsb_exists. exists x. split; [exact Hx|apply zmem_In; exact Hs]. }
-    congruence.
-  - intros H. destruct (existsb (fun x => zmem x seen) l) eqn:E; [|reflexivity].
-    apply existsb_exists in E. destruct E as [x [Hx Hs]]. apply zmem_In in Hs. exfalso. exact (H x Hx Hs).
-Qed.
-
-Lemma nth_map_rows {A} (f : list A -> list A) (m : list (list A)) i :
-  i < length m -> nth i (map f m) [] = f (nth i m []).
-Proof.
-  intros H. rewrite (nth_indep _ [] (f [])) by (rewrite map_length; exact H). apply map_nth.
-Qed.
-
-Lemma filter_NoDup {A} (f : A -> bool) l : NoDup l -> NoDup (filter f l).
-Proof.
-  induction l as [|x l IH]; simpl; intros H; [constructor|].
-  inversion H as [|? ? Hx H']; subst. destruct (f x); [|apply IH; exact H'].
-  constructor; [|apply IH; exact H']. intros Hi. apply filter_In in Hi. tauto.
-Qed.
-
 (* ---------------------------------------------------------------- (a) the disjointness test *)
 Definition shares (ts : list table) : Prop :=
   exists i j ti tj x, i < j /\ nth_error ts i = Some ti /\ nth_error ts j = Some tj /\
